@@ -19,7 +19,7 @@ import t12
 VERIF = os.path.dirname(os.path.dirname(os.path.abspath(__file__)))
 RT = os.path.join(VERIF, 'rt', 'rt.rs')
 
-STATE_POOL = ['Idle', 'Active', 'Done', 'HTTPServer', 'IOError', 'S9', 'LaunchPrep', 'Standby', 'Zed', 'Alpha', 'ready', 'HalfOpen',
+STATE_POOL = ['Idle', 'Active', 'Done', 'HTTPServer', 'IOError', 'S9', 'LaunchPrep', 'Standby', 'Zed', 'Alpha', 'HalfOpen',
               'Beta', 'Busy', 'Wait2', 'ParseXML', 'Q', 'Run2Go']
 SUPER_POOL = ['Flight', 'Group', 'Outer', 'Inner', 'Zone', 'Ring1']
 EVENT_POOL = ['go', 'stop', 'launch', 'tick', 'next', 'reset', 'x1', 'set_thrust', 'enter_half_open', 'http_get', 'io', 'k_9',
